@@ -145,8 +145,10 @@ fn run_ro(case: &RoCase, rep: &mut Report) -> Vec<(String, String)> {
             } else {
                 vec![root.clone()]
             };
+            // state 6: the entries were put there by other means than the library (copied, unpacked): still writable
+            let entry_mode = if state == 6 { 0o644 } else { 0o444 };
             for d in dirs {
-                world::plant(&d.join("key"), &val_a().bytes(), 0o444, old - 120_000_000_000, old);
+                world::plant(&d.join("key"), &val_a().bytes(), entry_mode, old - 120_000_000_000, old);
                 world::plant(&d.join("other"), b"x", 0o444, old - 120_000_000_000, old);
                 world::plant(&d.join(".app"), b"app", 0o644, old, old + 1);
                 world::plant(&d.join("sub/file"), b"nested", 0o644, old, old + 1);
@@ -222,7 +224,7 @@ fn ro_cases() -> Vec<RoCase> {
     }
     names.extend(["sub/file", "sub/../key", "../ro1/key", ".app", "key/", "a/../key"].iter().map(|s| s.to_string()));
     let mut level_sets: Vec<Vec<(bool, u8)>> = Vec::new();
-    let opts: Vec<(bool, u8)> = vec![(false, 0), (false, 1), (false, 2), (true, 0), (true, 1), (true, 2), (true, 3), (false, 4), (true, 4), (false, 5), (true, 5)];
+    let opts: Vec<(bool, u8)> = vec![(false, 0), (false, 1), (false, 2), (true, 0), (true, 1), (true, 2), (true, 3), (false, 4), (true, 4), (false, 5), (true, 5), (false, 6), (true, 6)];
     for a in &opts {
         level_sets.push(vec![*a]);
         for b in &opts {
@@ -393,7 +395,7 @@ pub fn run(_tier: Tier, shard: Shard, rep: &mut Report) {
     set_tier(_tier);
     rep.rule = "(i) every cell of the C13 matrix and of the C14 matrix with a checker that has at least one read-only level; \
         (ii) ReadOnlyCache alone with 1-3 levels, each plain or sharded and each root missing / empty / populated / populated \
-        without the key's shard directories / holding the files of the other layout (the key's name directly under a sharded root, shard directories under a plain root), also named by relative paths when a root is missing or empty, under get and touch (with and without checker) of present, absent, reserved, \
+        without the key's shard directories / holding the files of the other layout (the key's name directly under a sharded root, shard directories under a plain root), also named by relative paths when a root is missing or empty / populated with entries that are still writable (mode 0644: put there by other means than the library), under get and touch (with and without checker) of present, absent, reserved, \
         NUL-containing and separator-containing names. Oracle: no mutating call (open for writing/creating, mkdir, rename, link, \
         unlink, chmod, truncate, write, mtime-setting utimens) targets a read-only root; recursive snapshots equal except atime \
         advancing on a found entry; missing roots stay missing. Non-trivial = a read-only level holds a copy / a degenerate root \
